@@ -496,3 +496,348 @@ example : hasSlot (init [1, 2, 9] [(2, [7]), (5, [1]), (1, [])]).list 2 7 = true
     hasAddr (init [1, 2, 9] [(2, [7]), (5, [1]), (1, [])]).list 5 = true := by decide
 
 end Artela.Acl
+
+/-!  ### The tracer's result, characterised exactly
+
+  What one step and a whole run list, as a set: the slots are the prior ones and those touched by SLOAD/SSTORE (under the
+  executing contract); the accounts are the prior ones, the owners of listed slots, and the non-excluded operands of the
+  account-access and call instructions.  -/
+namespace Artela.Acl
+
+/-- the slot a step touches -/
+def Ev.slotTouch (e : Ev) : Option (Addr × Slot) :=
+  if isSlotOp e.op then
+    match e.stack with
+    | top :: _ => some (e.contract, top)
+    | [] => none
+  else none
+
+/-- the accounts a step names (before the exclusion filter) -/
+def Ev.addrTouch (e : Ev) : List Addr :=
+  (if isAddrOp e.op then
+    match e.stack with
+    | top :: _ => [addrOf top]
+    | [] => []
+  else []) ++
+  (if isCallOp e.op && decide (5 ≤ e.stack.length) then
+    match e.stack with
+    | _ :: second :: _ => [addrOf second]
+    | _ => []
+  else [])
+
+theorem HasSlot_touch (st : St) (a b : Addr) (s : Slot) : HasSlot (touch st a).list b s ↔ HasSlot st.list b s := by
+  unfold touch; split
+  · exact Iff.rfl
+  · exact HasSlot_addAddress _ _ _ _
+
+theorem HasAddr_touch (st : St) (a b : Addr) :
+    HasAddr (touch st a).list b ↔ HasAddr st.list b ∨ (a = b ∧ st.excl.contains a = false) := by
+  unfold touch; split
+  · rename_i h
+    constructor
+    · intro hh; exact Or.inl hh
+    · rintro (hh | ⟨_, hc⟩)
+      · exact hh
+      · rw [h] at hc; cases hc
+  · rename_i h
+    rw [HasAddr_addAddress]
+    constructor
+    · rintro (hh | hh)
+      · exact Or.inl hh
+      · exact Or.inr ⟨hh, by simpa using h⟩
+    · rintro (hh | ⟨hh, _⟩)
+      · exact Or.inl hh
+      · exact Or.inr hh
+
+/-- one step, slots -/
+theorem capture_slots (st : St) (e : Ev) (a : Addr) (s : Slot) :
+    HasSlot (capture st e.op e.contract e.stack).list a s ↔ HasSlot st.list a s ∨ e.slotTouch = some (a, s) := by
+  rw [capture_parts]
+  have h3 : ∀ st2 : St, HasSlot (callPart st2 e.op e.stack).list a s ↔ HasSlot st2.list a s := by
+    intro st2; unfold callPart; split
+    · split
+      · exact HasSlot_touch _ _ _ _
+      · exact Iff.rfl
+    · exact Iff.rfl
+  have h2 : ∀ st1 : St, HasSlot (addrPart st1 e.op e.stack).list a s ↔ HasSlot st1.list a s := by
+    intro st1; unfold addrPart; split
+    · split
+      · exact HasSlot_touch _ _ _ _
+      · exact Iff.rfl
+    · exact Iff.rfl
+  rw [h3, h2]
+  unfold slotPart Ev.slotTouch
+  split
+  · split
+    · rw [HasSlot_addSlot]
+      simp only [Option.some.injEq, Prod.mk.injEq]
+    · simp
+  · simp
+
+/-- one step, accounts -/
+theorem capture_addrs (st : St) (e : Ev) (b : Addr) :
+    HasAddr (capture st e.op e.contract e.stack).list b ↔
+      HasAddr st.list b ∨ (∃ s, e.slotTouch = some (b, s)) ∨ (b ∈ e.addrTouch ∧ st.excl.contains b = false) := by
+  rw [capture_parts]
+  have e1 := slotPart_excl st e.op e.contract e.stack
+  have e2 := addrPart_excl (slotPart st e.op e.contract e.stack) e.op e.stack
+  have h1 : HasAddr (slotPart st e.op e.contract e.stack).list b ↔ HasAddr st.list b ∨ ∃ s, e.slotTouch = some (b, s) := by
+    unfold slotPart Ev.slotTouch
+    split
+    · split
+      · rw [HasAddr_addSlot]
+        simp only [Option.some.injEq, Prod.mk.injEq]
+        constructor
+        · rintro (h | h)
+          · exact Or.inl h
+          · exact Or.inr ⟨_, h, rfl⟩
+        · rintro (h | ⟨_, h, _⟩)
+          · exact Or.inl h
+          · exact Or.inr h
+      · simp
+    · simp
+  generalize slotPart st e.op e.contract e.stack = st1 at e1 e2 h1
+  have h2 : HasAddr (addrPart st1 e.op e.stack).list b ↔ HasAddr st1.list b ∨
+      (b ∈ (if isAddrOp e.op then (match e.stack with | top :: _ => [addrOf top] | [] => []) else []) ∧ st.excl.contains b = false) := by
+    unfold addrPart
+    split
+    · split
+      · rw [HasAddr_touch, e1]
+        simp only [List.mem_singleton]
+        constructor
+        · rintro (h | ⟨h, hc⟩)
+          · exact Or.inl h
+          · exact Or.inr ⟨h.symm, h ▸ hc⟩
+        · rintro (h | ⟨h, hc⟩)
+          · exact Or.inl h
+          · exact Or.inr ⟨h.symm, h ▸ hc⟩
+      · simp
+    · simp
+  generalize addrPart st1 e.op e.stack = st2 at e2 h2
+  have h3 : HasAddr (callPart st2 e.op e.stack).list b ↔ HasAddr st2.list b ∨
+      (b ∈ (if isCallOp e.op && decide (5 ≤ e.stack.length) then (match e.stack with | _ :: second :: _ => [addrOf second] | _ => []) else []) ∧
+        st.excl.contains b = false) := by
+    unfold callPart
+    split
+    · split
+      · rw [HasAddr_touch, e2, e1]
+        simp only [List.mem_singleton]
+        constructor
+        · rintro (h | ⟨h, hc⟩)
+          · exact Or.inl h
+          · exact Or.inr ⟨h.symm, h ▸ hc⟩
+        · rintro (h | ⟨h, hc⟩)
+          · exact Or.inl h
+          · exact Or.inr ⟨h.symm, h ▸ hc⟩
+      · simp
+    · simp
+  rw [h3, h2, h1]
+  unfold Ev.addrTouch
+  simp only [List.mem_append]
+  constructor
+  · rintro (((h | h) | h) | h)
+    · exact Or.inl h
+    · exact Or.inr (Or.inl h)
+    · exact Or.inr (Or.inr ⟨Or.inl h.1, h.2⟩)
+    · exact Or.inr (Or.inr ⟨Or.inr h.1, h.2⟩)
+  · rintro (h | h | ⟨h | h, hc⟩)
+    · exact Or.inl (Or.inl (Or.inl h))
+    · exact Or.inl (Or.inl (Or.inr h))
+    · exact Or.inl (Or.inr ⟨h, hc⟩)
+    · exact Or.inr ⟨h, hc⟩
+
+theorem run_excl (st : St) (evs : List Ev) : (run st evs).excl = st.excl := by
+  unfold run
+  induction evs generalizing st with
+  | nil => rfl
+  | cons e es ih => simp only [List.foldl_cons]; rw [ih, capture_excl]
+
+/-- a whole run, slots: exactly the initial ones and those touched -/
+theorem acl_run_slots (st : St) (evs : List Ev) (a : Addr) (s : Slot) :
+    HasSlot (run st evs).list a s ↔ HasSlot st.list a s ∨ ∃ e ∈ evs, e.slotTouch = some (a, s) := by
+  unfold run
+  induction evs generalizing st with
+  | nil => simp
+  | cons e es ih =>
+    simp only [List.foldl_cons]
+    rw [ih, capture_slots]
+    simp only [List.mem_cons, exists_eq_or_imp]
+    constructor
+    · rintro ((h | h) | h)
+      · exact Or.inl h
+      · exact Or.inr (Or.inl h)
+      · exact Or.inr (Or.inr h)
+    · rintro (h | h | h)
+      · exact Or.inl (Or.inl h)
+      · exact Or.inl (Or.inr h)
+      · exact Or.inr h
+
+/-- a whole run, accounts: the initial ones, the owners of touched slots, and the named accounts that are not excluded -/
+theorem acl_run_addrs (st : St) (evs : List Ev) (b : Addr) :
+    HasAddr (run st evs).list b ↔
+      HasAddr st.list b ∨ (∃ e ∈ evs, ∃ s, e.slotTouch = some (b, s)) ∨ ((∃ e ∈ evs, b ∈ e.addrTouch) ∧ st.excl.contains b = false) := by
+  unfold run
+  induction evs generalizing st with
+  | nil => simp
+  | cons e es ih =>
+    simp only [List.foldl_cons]
+    rw [ih, capture_addrs, capture_excl]
+    simp only [List.mem_cons, exists_eq_or_imp]
+    constructor
+    · rintro ((h | h | h) | h | h)
+      · exact Or.inl h
+      · exact Or.inr (Or.inl (Or.inl h))
+      · exact Or.inr (Or.inr ⟨Or.inl h.1, h.2⟩)
+      · exact Or.inr (Or.inl (Or.inr h))
+      · exact Or.inr (Or.inr ⟨Or.inr h.1, h.2⟩)
+    · rintro (h | (h | h) | ⟨h | h, hc⟩)
+      · exact Or.inl (Or.inl h)
+      · exact Or.inl (Or.inr (Or.inl h))
+      · exact Or.inr (Or.inl h)
+      · exact Or.inl (Or.inr (Or.inr ⟨h, hc⟩))
+      · exact Or.inr (Or.inr ⟨h, hc⟩)
+
+end Artela.Acl
+
+namespace Artela.Acl
+
+theorem foldSlots_slots (ks : List Slot) (l : AList) (a b : Addr) (s : Slot) :
+    HasSlot (ks.foldl (fun acc k => addSlot acc a k) l) b s ↔ HasSlot l b s ∨ (a = b ∧ s ∈ ks) := by
+  induction ks generalizing l with
+  | nil => simp
+  | cons k ks ih =>
+    simp only [List.foldl_cons]
+    rw [ih, HasSlot_addSlot]
+    simp only [List.mem_cons]
+    constructor
+    · rintro ((h | ⟨h1, h2⟩) | ⟨h1, h2⟩)
+      · exact Or.inl h
+      · exact Or.inr ⟨h1, Or.inl h2.symm⟩
+      · exact Or.inr ⟨h1, Or.inr h2⟩
+    · rintro (h | ⟨h1, h2 | h2⟩)
+      · exact Or.inl (Or.inl h)
+      · exact Or.inl (Or.inr ⟨h1, h2.symm⟩)
+      · exact Or.inr ⟨h1, h2⟩
+
+theorem foldSlots_addrs (ks : List Slot) (l : AList) (a b : Addr) :
+    HasAddr (ks.foldl (fun acc k => addSlot acc a k) l) b ↔ HasAddr l b ∨ (a = b ∧ ks ≠ []) := by
+  induction ks generalizing l with
+  | nil => simp
+  | cons k ks ih =>
+    simp only [List.foldl_cons]
+    rw [ih, HasAddr_addSlot]
+    constructor
+    · rintro ((h | h) | ⟨h, _⟩)
+      · exact Or.inl h
+      · exact Or.inr ⟨h, by simp⟩
+      · exact Or.inr ⟨h, by simp⟩
+    · rintro (h | ⟨h, _⟩)
+      · exact Or.inl (Or.inl h)
+      · exact Or.inl (Or.inr h)
+
+/-- the constructed list, slots: exactly the keys of the prior list -/
+theorem acl_init_slots (excl : List Addr) (prior : AList) (a : Addr) (s : Slot) :
+    HasSlot (init excl prior).list a s ↔ ∃ t ∈ prior, t.1 = a ∧ s ∈ t.2 := by
+  unfold init
+  simp only
+  suffices ∀ l : AList, HasSlot (prior.foldl (initTuple excl) l) a s ↔ HasSlot l a s ∨ ∃ t ∈ prior, t.1 = a ∧ s ∈ t.2 by
+    rw [this []]
+    constructor
+    · rintro (⟨e, he, _⟩ | h)
+      · cases he
+      · exact h
+    · intro h; exact Or.inr h
+  induction prior with
+  | nil => intro l; simp
+  | cons t ts ih =>
+    intro l
+    simp only [List.foldl_cons]
+    rw [ih]
+    unfold initTuple
+    rw [foldSlots_slots]
+    have hb : HasSlot (if excl.contains t.1 then l else addAddress l t.1) a s ↔ HasSlot l a s := by
+      split
+      · exact Iff.rfl
+      · exact HasSlot_addAddress _ _ _ _
+    rw [hb]
+    simp only [List.mem_cons, exists_eq_or_imp]
+    constructor
+    · rintro ((h | h) | h)
+      · exact Or.inl h
+      · exact Or.inr (Or.inl h)
+      · exact Or.inr (Or.inr h)
+    · rintro (h | h | h)
+      · exact Or.inl (Or.inl h)
+      · exact Or.inl (Or.inr h)
+      · exact Or.inr h
+
+/-- the constructed list, accounts: those of the prior list that are not excluded or come with a key -/
+theorem acl_init_addrs (excl : List Addr) (prior : AList) (a : Addr) :
+    HasAddr (init excl prior).list a ↔ ∃ t ∈ prior, t.1 = a ∧ (excl.contains a = false ∨ t.2 ≠ []) := by
+  unfold init
+  simp only
+  suffices ∀ l : AList, HasAddr (prior.foldl (initTuple excl) l) a ↔
+      HasAddr l a ∨ ∃ t ∈ prior, t.1 = a ∧ (excl.contains a = false ∨ t.2 ≠ []) by
+    rw [this []]
+    constructor
+    · rintro (⟨e, he, _⟩ | h)
+      · cases he
+      · exact h
+    · intro h; exact Or.inr h
+  induction prior with
+  | nil => intro l; simp
+  | cons t ts ih =>
+    intro l
+    simp only [List.foldl_cons]
+    rw [ih]
+    unfold initTuple
+    rw [foldSlots_addrs]
+    have hb : HasAddr (if excl.contains t.1 then l else addAddress l t.1) a ↔ HasAddr l a ∨ (t.1 = a ∧ excl.contains a = false) := by
+      split
+      · rename_i hx
+        constructor
+        · intro h; exact Or.inl h
+        · rintro (h | ⟨h1, h2⟩)
+          · exact h
+          · rw [h1] at hx; rw [hx] at h2; cases h2
+      · rename_i hx
+        rw [HasAddr_addAddress]
+        constructor
+        · rintro (h | h)
+          · exact Or.inl h
+          · exact Or.inr ⟨h, by rw [← h]; simpa using hx⟩
+        · rintro (h | ⟨h, _⟩)
+          · exact Or.inl h
+          · exact Or.inr h
+    rw [hb]
+    simp only [List.mem_cons, exists_eq_or_imp]
+    constructor
+    · rintro (((h | ⟨h1, h2⟩) | ⟨h1, h2⟩) | h)
+      · exact Or.inl h
+      · exact Or.inr (Or.inl ⟨h1, Or.inl h2⟩)
+      · exact Or.inr (Or.inl ⟨h1, Or.inr h2⟩)
+      · exact Or.inr (Or.inr h)
+    · rintro (h | ⟨h1, h2 | h2⟩ | h)
+      · exact Or.inl (Or.inl (Or.inl h))
+      · exact Or.inl (Or.inl (Or.inr ⟨h1, h2⟩))
+      · exact Or.inl (Or.inr ⟨h1, h2⟩)
+      · exact Or.inr h
+
+/-- C18, access-list tracer, as a specification: after construction from `prior` and any run, a slot is listed iff it is a
+    key of the prior list or was touched by SLOAD/SSTORE in that contract -/
+theorem acl_spec_slots (excl : List Addr) (prior : AList) (evs : List Ev) (a : Addr) (s : Slot) :
+    HasSlot (run (init excl prior) evs).list a s ↔
+      (∃ t ∈ prior, t.1 = a ∧ s ∈ t.2) ∨ ∃ e ∈ evs, e.slotTouch = some (a, s) := by
+  rw [acl_run_slots, acl_init_slots]
+
+/-- … and an account is listed iff it is in the prior list un-excluded or with a key, owns a touched slot, or is named by
+    an account-access or call instruction and not excluded -/
+theorem acl_spec_addrs (excl : List Addr) (prior : AList) (evs : List Ev) (b : Addr) :
+    HasAddr (run (init excl prior) evs).list b ↔
+      (∃ t ∈ prior, t.1 = b ∧ (excl.contains b = false ∨ t.2 ≠ [])) ∨
+      (∃ e ∈ evs, ∃ s, e.slotTouch = some (b, s)) ∨
+      ((∃ e ∈ evs, b ∈ e.addrTouch) ∧ excl.contains b = false) := by
+  rw [acl_run_addrs, acl_init_addrs]
+  rfl
+
+end Artela.Acl
